@@ -90,6 +90,7 @@ static void run_case(const vh::Case &cs, Worker &w) {
     vh::t_count = true;
     x.start = vh::alloc_mark();
     for (auto &op : cs.ops) {
+        Watchdog::inst().tick();
         if (op.empty()) { reject(x); continue; }
         switch (op[0]) {
             case 10: {
@@ -230,12 +231,14 @@ static void run_case(const vh::Case &cs, Worker &w) {
 int main(int argc, char **argv) {
     if (argc < 2) return 2;
     coro_queue::install_queue_and_call([] {});
+    Watchdog::inst().start();
     Worker w;
     Worker::inst() = &w;
     cocls::verif::get_hooks().block = &Worker::hook_block;
     w.start();
     w.run([] { coro_queue::install_queue_and_call([] {}); });
     for (auto &cs : vh::read_cases(argv[1])) {
+        Watchdog::inst().tick();
         std::printf("CASE %s\n", cs.name.c_str());
         std::fflush(stdout);
         if (cs.engine == "aggr1") run_case<true>(cs, w);
@@ -243,6 +246,8 @@ int main(int argc, char **argv) {
         std::printf("END\n");
         std::fflush(stdout);
     }
+    Watchdog::inst().tick();
     w.stop();
+    Watchdog::inst().finish();
     return 0;
 }
